@@ -9,7 +9,7 @@ usage: run.py [-j N] [-only substr] [-dirs d1,d2]"""
 import json, os, subprocess, sys, shutil, tempfile, threading, queue, re, argparse, time
 ap=argparse.ArgumentParser(); ap.add_argument('-j',type=int,default=5); ap.add_argument('-only',default=''); ap.add_argument('-dirs',default='.,state,stores/sqlite,stores/durablestream,otel'); ap.add_argument('-out',default='/verif/selftest/automut/results.jsonl')
 args=ap.parse_args()
-REPO='/repo'; BIN='/verif/bin'
+REPO=os.environ.get('AUTOMUT_REPO','/repo'); BIN='/verif/bin'
 env=dict(os.environ, GOFLAGS='-mod=mod', GOPROXY='off'); env.pop('GOTOOLCHAIN',None)
 # functions under contract
 funcs={}
@@ -28,7 +28,7 @@ for d in args.dirs.split(','):
         r=subprocess.run([BIN+'/automut',path]+decls,capture_output=True,text=True)
         for l in r.stdout.splitlines():
             mu=json.loads(l); mu['dir']=d; mu['file']=f
-            if args.only and args.only not in mu['func']: continue
+            if args.only and not any(o in mu['func'] for o in args.only.split(',')): continue
             mu['units']=[n for n in names if n==mu['func'] or n.startswith(mu['func']+'$')]+['package']
             jobs.append(mu)
 print(len(jobs),'mutants',file=sys.stderr)
